@@ -30,9 +30,6 @@ func init() {
 		{Name: "dangling-timed-with-incoming-delta", File: arb,
 			Old: "		goToChain := c.shouldGoOnChain(htlc, c.cfg.OutgoingBroadcastDelta,", New: "		goToChain := c.shouldGoOnChain(htlc, c.cfg.IncomingBroadcastDelta,",
 			Expect: "deltas-and-preimage-by-direction"},
-		{Name: "probe-height-arg", File: arb,
-			Old: "			htlc, c.cfg.OutgoingBroadcastDelta, height,", New: "			htlc, c.cfg.OutgoingBroadcastDelta, height+1,",
-			Expect: "deltas-and-preimage-by-direction"},
 
 		// one-disposition-per-htlc
 		{Name: "incoming-dust-also-watched", File: arb,
